@@ -159,6 +159,8 @@ def pipeline_strategy(*, max_ops=3, max_vars=3, max_K=2, semirings=("sum-product
             kw.update(cx=True)
         nb = draw(st.integers(1, 2))
         bases = draw(gen.sd_pair(n=nb, skeleton=True, max_reps=2, same_K=draw(st.booleans()), **kw))
+        if draw(st.integers(0, 2)) == 0:
+            bases = [gen.unlearn(draw, b, p=8) for b in bases]  # some frozen tensors
         dom = gen.domains_of(bases[0])
         full = frozenset(dom)
         pipe = [{"op": "base", "i": i} for i in range(nb)]
